@@ -94,6 +94,9 @@ OptSet(t) ==
       \* <<directory holding the ignore file, node it names, directory-only rule>>
       igns == {<<0, 0, FALSE>>}
               \cup {<<pr[1], pr[2], k>> : pr \in {q \in IgnPairs(t) : q[2] \in PhysDesc(t, q[1])}, k \in BOOLEAN}
+              \* a rule naming an entry that does NOT live below the ignore file's directory: it must never act
+              \* (a walker that keeps the matcher of a directory it has left would apply it to later entries)
+              \cup {<<pr[1], pr[2], FALSE>> : pr \in {q \in IgnPairs(t) : q[2] \notin PhysDesc(t, q[1]) /\ q[2] # q[1]}}
   IN {[md |-> m, fs |-> a, fl |-> b, sfs |-> c, filt |-> f, ignd |-> g[1], ignt |-> g[2], igndir |-> g[3]]
         : m \in Depths, a \in (IF OptMode = "device" THEN {FALSE} ELSE B(hasBig)), b \in B(hasLink),
           c \in (IF Devs = {1} THEN {FALSE} ELSE B(hasDev2)),      \* one device: same_file_system cannot act
